@@ -484,6 +484,14 @@ def run(ctx):
              'application)', floor=2)
     for fam in SA:
         r5_own_tables(ctx, fam)
+    ctx.rule('C04.R9', 'the gate is enforced by the server\'s connect path: a '
+             'refusal raised by admin_connect is contained and handled as a '
+             'refusal, and a handler that failed (predicate raising on a '
+             'malformed payload) has not accepted the client (shared rule)',
+             floor=4)
+    from .c04 import r9_refusal_contained
+    for fam in SA:
+        r9_refusal_contained(ctx, fam)
     ctx.assume('dict/list equality of Python decides "equals the configured '
                'credentials" (type-confused payloads compare unequal)')
     ctx.assume('timing and failures inside the instrumentation are NOT '
